@@ -62,6 +62,17 @@ CLAIMED["C19"] = ("AtomicFs",
     "process-crash model (completed system calls persist); a crash inside the write of the temporary file is emulated by truncating it to prefix lengths.",
     "5.8, 6 C19")
 
+CLAIMED["C04"] = ("Chunker",
+    "TLC model checking of Chunker.tla (call-level transcription of Chunker::next / next_block / finish over an abstract stream given by its reference chunk lengths; instances W=2/5/8, W=4/2/8 and the real constants 64/128/256 over length classes; negative controls: skip distance off by one, cur_chunk_len not reset) and of ChunkerRule.tla (concrete {0,1} streams: the one-pass reference rule is position independent and the transcribed chunker follows it for every call partition; negative control: hash not reset); model behaviours (Gen_Chunker) realised as bytes by a length-class synthesiser, plus random / constant / periodic / low-entropy / boundary-rich / relocated streams, replayed on the real Chunker under seven chunk-size configurations; every call validated against Trace_Chunker.tla",
+    "Exhaustive model checking of the call protocol (out is a prefix of the reference chunking at every step and equals it at the end; buffered + emitted = consumed; no chunk above the maximum, every chunk but the stream's last at least min - 64; a call returning no chunk consumed all its input; next_block = iterated next) for all reference length lists and all call sequences of the small instances, plus conformance: every recorded call (n, final, consumed, emitted) of next / next_block / finish must equal the model's step on the reference boundaries computed by the harness's independent gear-hash implementation, for targets 128 (divisor 1 and 8), 256 (divisor 2, multiplier 4), 1024, 8192 and 65536 (Chunker::default and Chunker::new), call partitions incl. empty, one-byte, 63/64/65-byte, boundary-straddling and whole-stream calls; chunk bytes must concatenate to the input and chunk hashes equal the reference chunk hash.",
+    "gear table and rolling-hash step are primitives; streams are sampled, the model is exhaustive only over length lists / call sequences of the small instances; next_block(&[], true) does not flush (transcribed, not judged); hangs of the code are recorded by a watchdog as unmatched events.",
+    "5.1, 6 C04")
+CLAIMED["C06"] = ("MerkleTree",
+    "TLC model checking of MerkleTree.tla (merge_one_level / merge with a symbolic hash algebra, parents' cut bits non-deterministic; all leaf lists of 1..10 (12) leaves over all cut-bit patterns with repeated hashes; negative controls: >=2 guard dropped, child slice one short); every cut-bit pattern of 1..8 (11) leaves realised as leaf hashes and random families of 1..20000 leaves with purposely made variants pushed through MerkleMemDB merge_to_cas / merge_to_file (real tree walked level by level), cas_node_hash, add_file+finalize, file_node_hash, with_salt, range_hash_from_chunks, compute_data_hash / HashedWrite (incl. short-writing sinks), hex / base64 / slice forms, hmac, RawXorbData -> CasObject::serialize -> both validators, and the independent reference merkleref; validated against Trace_MerkleTree.tla",
+    "Exhaustive model checking of the aggregation tree (termination, in-order leaves and lengths of every level = the input list, fan-out bounds <= 9 / >= 3 for every group but the last, uniqueness of the grouping) plus conformance: the grouping of every level of every real tree must be the rule's grouping of the recorded cut bits and its leaves the declared list; per chunk-list family all producer, validator and reference paths must yield one id per (list, salt) and different ids for different lists (changed hash, changed length, swap, insert, drop, duplicate); range hashes, chunk hashes (one-shot = streaming over random splits = reference), keyed hashes are functions equal to the reference; every text / byte form decodes to the same hash and equals the reference encoding; both xorb validators accept a serialized xorb under the uploader's hash and reject it under another.",
+    "blake3 uninterpreted: hashes, salts, keys, byte strings, texts and large lengths are interned ids, injectivity is checked over what a run sees; inside a list the length is a function of the chunk hash (MerkleMemDB keeps one node per hash) and the zero hash is not a leaf.",
+    "5.2, 6 C06")
+
 PENDING_REASON = "check not built yet in this round (planned in DESIGN.md section 6); no claim is made"
 
 checks = []
